@@ -1585,7 +1585,11 @@ class Choose(Op):
     def gen(self, g):
         rng = g.rng
         k = int(rng.integers(2, 4))
-        a = g.index_node(k, shape=None, nonneg=True, pointdep_ok=True)
+        if rng.random() < .15:
+            k = 2
+            a = g.operand('b', need_array=True)      # boolean selector: numpy.choose(cond, [a, b])
+        else:
+            a = g.index_node(k, shape=None, nonneg=True, pointdep_ok=True)
         if a is None:
             return None
         first = g.second(a, 'bifc')
